@@ -75,6 +75,10 @@ CHECKS = {
          'complete enumeration: all request sequences up to length 3 (4) over 6 keys x lowered threshold grid x bulk operation; all pairs of sorted-unique sequences for the merge helpers; all unsorted inputs',
          'Bulk results are compared with the single-key API for every request sequence under every (IN-batch, full-scan) threshold pair, around the real thresholds (949..9501 keys, 999..2001 rows), and the helpers against set algebra for all 4096 pairs; unsorted inputs must be rejected.',
          'Thresholds lowered via instance attributes; universe of 6 keys.', '5 C16'),
+ 'C15': ('sched', 'model_checking',
+         'exhaustive enumeration of all placements of client operations over the gaps of the real backup procedure (real rsync / sqlite3 backup / mv), two rounds, both environment answers for the index timestamp; thorough: threads under the baton scheduler with pre-emption bound 2',
+         'Every non-decreasing placement of each client script (add, pack with/without per-pack cleaning, clean, direct-to-pack) over the six gaps of backup_container, and over the gaps of an incremental backup on top of a first one, is executed for real; every completed backup is opened as a container and checked (pre-existing objects, exposed keys, validate).',
+         'Local destinations; rsync binary trusted; one rsync call = one step in the quick tier; client operations atomic in the quick tier.', '5 C15, 3 E2'),
 }
 
 NOT_YET = {
